@@ -37,7 +37,12 @@ ASSUMPTIONS = [
     "numerical value: |reported - exact derivative| <= 2*max|q(+h)-D|,|q(-h)-D| + K*eps*sum|w||y|_mag/h with q the one-sided "
     "difference quotient of the reference model at the documented step h=dx (dx*|x0| for relative_dx), i.e. twice the "
     "truncation error of a one-sided scheme (central or smaller-step schemes pass), K=8*(N+6)*depth from gamma_n bounds "
-    "of f(x+h), f(x), the step x0+h and the weighted sum (N largest signal size, depth number of modules)",
+    "of f(x+h), f(x), the step x0+h and the weighted sum (N largest signal size, depth number of modules); |y|_mag is the "
+    "forward pass of the absolute-value model at |x|+h_max; measured: the unchanged tree uses <1e-3 of the rounding part",
+    "reports are matched to expected records order-free (perfect bipartite matching on entry value x0 bit for bit, "
+    "analytical and numerical value), because test_fn carries no index: any visiting order is accepted, every perturbable "
+    "entry must be reported exactly once per output and direction; for an intermediate fromsig x0 is read from the signal "
+    "after a preliminary response() (it equals the reference value to 1e-12)",
     "the exact Jacobian code of the oracle is confirmed per record by a five-point stencil of the reference forward map "
     "(exact for degree<=4); disagreement >1e-5 relative makes the case inconclusive, never a violation",
     "library modules: analytical reference = back-propagation of a copy of the observed seed on a fresh instance; "
@@ -84,12 +89,12 @@ def plan(tier, seed):
                 for kz in (1, 0):
                     cases.append({"fam": "single", "kind": kind, "coef": coef, "knob": knob, "kz": kz, "r": k})
                     k += 1
-    reps = 1 if tier == "quick" else 8
+    reps = 2 if tier == "quick" else 12
     base = list(cases)
     for rep in range(1, reps):
         cases += [dict(c, r=c["r"] + rep * 100000) for c in base]
     # ---- drawn families
-    nnet, nsingle2, nlib, nsp = (700, 300, 48, 6) if tier == "quick" else (9000, 3000, 400, 12)
+    nnet, nsingle2, nlib, nsp = (2000, 800, 64, 6) if tier == "quick" else (30000, 10000, 600, 12)
     cases += [{"fam": "network", "r": i} for i in range(nnet)]
     cases += [{"fam": "single2", "r": i} for i in range(nsingle2)]     # two inputs / two outputs / sparse out, all drawn
     cases += [{"fam": "assemble", "r": i, "wrong": i % 2} for i in range(nlib)]
@@ -103,6 +108,11 @@ def plan(tier, seed):
 
 # ============================================================================================== harness
 _H = {}
+
+
+def _SS():
+    from pymoto.core_objects import SignalSlice
+    return SignalSlice
 
 
 def harness():
@@ -126,19 +136,19 @@ def harness():
                 if not sys._getframe(1).f_code.co_filename.endswith("core_objects.py"):
                     self._spy.append((self, v, copy.deepcopy(v)))
 
-    class SpySlice(pym.SignalSlice):
+    class SpySlice(_SS()):
         _spy = None
 
         @property
         def sensitivity(self):
-            return pym.SignalSlice.sensitivity.fget(self)
+            return _SS().sensitivity.fget(self)
 
         @sensitivity.setter
         def sensitivity(self, v):
             if v is not None and self._spy is not None:
                 if not sys._getframe(1).f_code.co_filename.endswith("core_objects.py"):
                     self._spy.append((self, v, copy.deepcopy(v)))
-            pym.SignalSlice.sensitivity.fset(self, v)
+            _SS().sensitivity.fset(self, v)
 
     class PolyMod(pym.Module):
         """y = Poly(x): the program handed to finite_difference.  ``outfmt`` per output: ('py',) ('0d',) ('vec',)
@@ -238,6 +248,8 @@ def make_source(rng, kind):
         cx = kind.endswith("c")
         v = draw_vals(rng, (), cx, False)
         z = complex(v) if cx else float(v)
+        if rng.random() < 0.12:
+            z = 0j if cx else 0.0           # a scalar state that is exactly zero
         if kind.startswith("py"):
             return z, None
         if kind.startswith("np"):
@@ -334,7 +346,7 @@ def build_program(rng, case, ctx):
             in_sizes.append(int(idx.size))
             in_c.append(P.cplx[name])
             ref_ins.append((name, idx))
-            py_ins.append(P.sig[name] if sl is None else pym.SignalSlice(P.sig[name], sl))
+            py_ins.append(P.sig[name] if sl is None else _SS()(P.sig[name], sl))
         real_out = [bool(opts.get("realout")) and rng.random() < 0.7 for _ in out_sizes]
         model = M.make_poly(rng, in_sizes, in_c, out_sizes, opts["coef"], opts["quad"], opts["conj"], real_out)
         outs = []
@@ -552,7 +564,7 @@ def select_signals(rng, P, case):
     tags = {"from": "default", "to": "default"}
 
     def describe(obj):
-        if isinstance(obj, pym.SignalSlice):
+        if isinstance(obj, _SS()):
             return (obj.base.tag, obj.slice, obj)
         return (obj.tag, None, obj)
 
@@ -615,17 +627,17 @@ def select_signals(rng, P, case):
             fromarg = None
         elif u < 0.8 or not [n for n in P.produced if n in P.consumers]:
             # subset of the network's own input signals (slices stay the slices the modules consume)
-            net_in = list(blk.sig_in)
+            net_in = sorted(blk.sig_in, key=lambda q: (q.base.tag, repr(q.slice)) if isinstance(q, _SS()) else (q.tag, ''))
             k = int(rng.integers(1, len(net_in) + 1))
             sel = [net_in[i] for i in rng.choice(len(net_in), k, replace=False)]
             tags["from"] = "inputs-all" if k == len(net_in) else "inputs-subset"
             # optionally replace a full source by a slice of it
             objs = []
             for s in sel:
-                if (not isinstance(s, pym.SignalSlice)) and len(P.shape[s.tag]) >= 1 and rng.random() < 0.3 \
+                if (not isinstance(s, _SS())) and len(P.shape[s.tag]) >= 1 and rng.random() < 0.3 \
                         and not P.kinds[s.tag].startswith("view"):
                     sl, slk = draw_slice(rng, P.shape[s.tag])
-                    objs.append(pym.SignalSlice(s, sl))
+                    objs.append(_SS()(s, sl))
                     tags["from"] = "sliced-" + slk
                 else:
                     objs.append(s)
@@ -646,10 +658,10 @@ def select_signals(rng, P, case):
             objs = []
             tags["from"] = "inputs-all" if k == len(ins) else "inputs-subset"
             for s in sel:
-                if (not isinstance(s, pym.SignalSlice)) and isinstance(s.state, np.ndarray) and s.state.ndim >= 1 \
+                if (not isinstance(s, _SS())) and isinstance(s.state, np.ndarray) and s.state.ndim >= 1 \
                         and rng.random() < 0.4 and not P.kinds[s.tag].startswith("view"):
                     sl, slk = draw_slice(rng, P.shape[s.tag])
-                    objs.append(pym.SignalSlice(s, sl))
+                    objs.append(_SS()(s, sl))
                     tags["from"] = "sliced-" + slk
                 else:
                     objs.append(s)
@@ -657,7 +669,7 @@ def select_signals(rng, P, case):
     inps = list(blk.sig_in) if fromarg is None else (fromarg if isinstance(fromarg, list) else [fromarg])
     outps = list(blk.sig_out) if toarg is None else (toarg if isinstance(toarg, list) else [toarg])
     for s in inps:
-        if isinstance(s, pym.SignalSlice) and tags["from"] in ("default", "inputs-all", "inputs-subset"):
+        if isinstance(s, _SS()) and tags["from"] in ("default", "inputs-all", "inputs-subset"):
             tags["from"] += "+module-slice"
             break
     return fromarg, toarg, [describe(s) for s in inps], [describe(s) for s in outps], tags
@@ -759,9 +771,10 @@ def run_poly(case, ctx):
         reports, text = call_fd(pym, P.blk, kw, int(rng.integers(0, 2**31 - 1)))
     except TypeError as e:
         site = exc_site(e)
-        if site == "pymoto/routines.py:finite_difference" and "not subscriptable" in str(e) and \
-                any(type(P.src_state.get(n)) is complex for n, _, _ in fromlist):
-            raise Violation("complex-python-scalar-input-raises", error=str(e)[:200],
+        if site == "pymoto/routines.py:finite_difference" and "'complex' object is not subscriptable" in str(e):
+            # a Python `complex` analytical sensitivity (Python-complex input state, or the seed of a complex scalar
+            # output that is its own input of interest) is indexed in the imaginary branch
+            raise Violation("python-complex-sensitivity-raises-TypeError", error=str(e)[:200],
                             inputs=[P.kinds.get(n) for n, _, _ in fromlist], kw={k: v for k, v in kw.items()
                                                                               if k in ("dx", "relative_dx", "random")})
         raise
@@ -807,7 +820,11 @@ def run_poly(case, ctx):
     kconst = 8.0 * (nmax + 6) * P.nmods
     ref_from = [(n, M.flat_index(P.shape[n], sl)) for n, sl, _ in fromlist]
     ref_to = [(n, M.flat_index(P.shape[n], sl) if P.sig_fmt[n][0] != "sparse" else None) for n, sl, _ in tolist]
-    recs, info = M.expected_records(P.ref, ref_from, ref_to, Ws, dx, rel, kz, kconst)
+    actual = {n: np.asarray(b).reshape(-1) for n, b in before_cut.items()}
+    for n, a in actual.items():
+        if a.shape != vals0[n].shape or np.max(np.abs(a - vals0[n])) > 1e-12 * (1e-300 + np.max(np.abs(vals0[n]))):
+            raise Inconclusive("harness module and reference model disagree on an intermediate state")
+    recs, info = M.expected_records(P.ref, ref_from, ref_to, Ws, dx, rel, kz, kconst, actual=actual)
     if info["selfcheck"] > 1e-5:
         raise Inconclusive("reference Jacobian disagrees with the five-point stencil of the reference map",
                            selfcheck=info["selfcheck"])
@@ -818,15 +835,31 @@ def run_poly(case, ctx):
     if mech is not None:
         if mech.startswith("numerical/"):
             bad = stats.get("unmatched_fd_reports", [])
-            slk = {f: k for f, k in enumerate(_slice_kinds(fromlist))}
-            if bad and all(float(reports[i][2]) == 0.0 for i in bad) and "bad_record" in stats:
-                e = recs[stats["bad_record"]]
-                if e["dir"] == "im" and slk.get(e["inp"]) == "copy":
-                    mech = "numerical/imaginary-perturbation-not-applied-to-copying-input-signal"
+            slk = _slice_kinds(fromlist)
+            n_im_copy = sum(1 for e in recs if e["dir"] == "im" and slk[e["inp"]] == "copy")
+            if bad and all(float(reports[i][2]) == 0.0 for i in bad) and len(bad) <= n_im_copy:
+                mech = "numerical/imaginary-perturbation-not-applied-to-copying-input-signal"
+                i0 = bad[0]
+                wit = {"report_index": i0, "x0": complex(np.asarray(reports[i0][0]).reshape(-1)[0]),
+                       "reported_an": float(reports[i0][1]), "reported_fd": float(reports[i0][2]),
+                       "reports_with_numerical_value_exactly_zero_left_unmatched": len(bad),
+                       "imaginary_direction_records_of_copying_inputs": n_im_copy,
+                       "input_signal_kinds": slk, "h": dx}
             if seeds_mutated:
                 mech = "numerical/seed-clobbered-by-module-sensitivity"
+        outside = [n for n, _, _ in tolist if P.is_network and n in P.producer and not (i_first <= P.producer[n] <= i_last)]
+        if mech.startswith("analytical/") and outside and len(tolist) > 1:
+            # the seed of an output produced outside the executed sub-network is never reset and is read back as the
+            # sensitivity of a later output's pass
+            mech = "sensitivity-left-set/output-outside-executed-subnetwork"
+            wit["consequence"] = "analytical value of a later output contains the seed of an earlier one"
+            wit["outputs_outside_range"] = outside
         if mech.startswith("reports/") and kz and "x0" in wit and complex(wit["x0"]) == 0:
-            mech = "reports/zero-entry-perturbed-despite-keep_zero_structure"
+            zero_scalars = [n for n, sl, obj in fromlist if not isinstance(obj.state, np.ndarray) and obj.state == 0]
+            mech = ("reports/zero-scalar-input-perturbed-despite-keep_zero_structure" if zero_scalars and
+                    len(reports) - len(recs) == sum(len(tolist) * (2 if np.iscomplexobj(P.sig[n].state) else 1)
+                                                    for n in zero_scalars)
+                    else "reports/zero-entry-perturbed-despite-keep_zero_structure")
         raise Violation(mech, **wit, **common)
     assign = stats["assign"]
     ctx.count("reports_judged", len(reports))
@@ -842,9 +875,9 @@ def run_poly(case, ctx):
         ctx.count("cut_fromsig_cases")
     if stale:
         ctx.count("stale_sensitivity_cases")
-    margin_fd = max([abs(float(reports[i][2]) - recs[j]["fd"]) / recs[j]["allow"] for i, j in enumerate(assign)] + [0.0])
+    margin_fd = max([abs(float(reports[i][2]) - recs[j]["fd"]) / max(recs[j]["allow"], 1e-300) for i, j in enumerate(assign)] + [0.0])
     margin_rnd = max([abs(float(reports[i][2]) - recs[j]["fd"]) / recs[j]["rnd"] for i, j in enumerate(assign)
-                      if recs[j]["allow"] < 1.5 * recs[j]["rnd"]] + [0.0])
+                      if recs[j]["allow"] < 1.001 * recs[j]["rnd"]] + [0.0])
     margin_an = max([abs(float(reports[i][1]) - recs[j]["an"]) / recs[j]["tol_an"] for i, j in enumerate(assign)] + [0.0])
 
     # ---- matching / non-matching pairs as reported
@@ -988,18 +1021,25 @@ def _lib_common(ctx, pym, build, x, kw, rng, linear, wrongf, name):
     dx = kw["dx"]
     kz = kw.get("keep_zero_structure", True)
     recs = []
-    ymag = float(np.sum(np.abs(W) * (np.abs(y0) + 0)))
-    for i in range(len(x)):
+    n = len(x)
+    if linear:
+        # exact columns of the linear map (t = 1) and the magnitude assembly  sum_e |x_e| |K_e|
+        cols = []
+        for i in range(n):
+            e = x.copy()
+            e[i] += 1.0
+            cols.append(f(e) - y0)
+        kmag = sum(abs(x[i]) * np.abs(cols[i]) for i in range(n))
+    ymag = float(np.sum(np.abs(W) * (kmag if linear else np.abs(y0))))
+    for i in range(n):
         if kz and x[i] == 0:
             continue
         h = dx * abs(x[i]) if (kw.get("relative_dx") and x[i] != 0) else dx
         if linear:
-            e = x.copy()
-            e[i] += 1.0
-            D = float(np.sum(W * (f(e) - y0)))
+            D = float(np.sum(W * cols[i]))
             trunc = 0.0
-            # the perturbed matrix entries are as large as (|x_i|+h)*|K_e|: bound through K(|x|+1)
-            rnd = 64 * EPS_(len(x)) * float(np.sum(np.abs(W) * (np.abs(y0) + np.abs(f(e) - y0) * (abs(x[i]) + 1)))) / h
+            sc = float(np.sum(np.abs(W) * (kmag + (1 + h) * np.abs(cols[i]))))
+            rnd = 32 * (n + 8) * M.EPS * sc / h + 4 * (n + 8) * M.EPS * sc
         else:
             ep, em = x.copy(), x.copy()
             ep[i] += h
@@ -1064,10 +1104,6 @@ def _lib_common(ctx, pym, build, x, kw, rng, linear, wrongf, name):
             ctx.violate("sensitivity-left-set/" + ("seed-on-output" if s is sy else "perturbed-input"), signal=s.tag, **common)
     margin = max([abs(float(reports[i][2]) - recs[j]["fd"]) / recs[j]["allow"] for i, j in enumerate(assign)] + [0.0])
     return reports, recs, margin
-
-
-def EPS_(n):
-    return M.EPS * (n + 8)
 
 
 def run_assemble(case, ctx):
